@@ -57,7 +57,7 @@ pub fn run(tier: Tier) -> i32 {
     let started = std::time::Instant::now();
     let (h, d, k, a, corpus, secs) = match tier {
         Tier::Quick => (3, 3, 2, 11, 3000, 45),
-        Tier::Thorough => (5, 4, 3, 16, 40_000, 1800),
+        Tier::Thorough => (4, 4, 2, 16, 20_000, 2400),
     };
     let mut set = pause_programs();
     set.extend(program_set(k, a, corpus));
